@@ -9,6 +9,17 @@ ROOT = os.path.dirname(os.path.dirname(os.path.abspath(__file__)))
 
 # id -> (level, technique, text, note, design_ref)
 CHECKS = {
+    "C01": (
+        "exploration",
+        "deterministic simulation: seeded multi-client broker-API scripts with call cancellation at seeded step offsets; reference lifecycle model vs broker-side state",
+        "1-3 well-behaved clients (1-2 connections on Redis/RabbitMQ) run seeded scripts of enqueue/consume/ack/nack/reject/requeue/"
+        "consumer start-finish/sleep on all three brokers; one call per run may be cancelled at a seeded loop-step offset inside it "
+        "(thorough: offset swept). After every returned call and at the end the place, payload and parameters of each id, read from "
+        "the broker's own storage (DummyQueue / SimRedis keyspace / SimRabbit queues and unacked maps), must equal a reference "
+        "lifecycle model (exactly one place; ack removes, nack dead-letters, reject returns to the origin category, requeue replaces).",
+        "Samples histories. The model tolerates what the property tolerates only: a cancelled call took effect or not; prefetch by an active consumer counts as held; network brokers are compared after one network-latency grace period. Not exercised: cancelling consumer start()/finish() on RabbitMQ (aiormq closes the channel on a cancelled RPC), nack of messages taken from DELAYED/DEAD (refused by the message API), TTL.",
+        "DESIGN.md section 8 C01",
+    ),
     "C03": (
         "fault_enumeration",
         "deterministic simulation with step-indexed fault injection: stop signal / forced cancellation / process kill swept over the loop steps of seeded worker runs",
